@@ -447,6 +447,11 @@ def check_elimination(facts, rep):
             s = sk(x)
             return bool(nm and re.search(r'\^(_ref__)?%s$' % re.escape(nm), s))
         found = set()
+        # the local named `ainv` of the enclosing function must be the plain inverse of the pivot edge
+        for nm, terms in named_local_terms(root, {'ainv'}).items():
+            for tm in terms:
+                if not pure_inverse(tm):
+                    found.add(('ainv-definition', 'NOT-the-inverse(%s)' % sk(tm)[:50], '', ''))
         for b in bs:
             rep.saw(b)
             top = (b is root)
@@ -516,8 +521,10 @@ def elim_shape(t, is_src, is_tgt):
 
     def role(v):
         s = sk(v)
-        if 'inv(' in s or re.search(r'\^(_ref__)?ainv$', s):
-            return 'ainv'
+        if re.search(r'\^(_ref__)?ainv$', s):
+            return 'ainv'          # captured local `ainv`; its definition is checked in the enclosing function
+        if 'inv(' in s:
+            return 'ainv' if pure_inverse(v) else 'NOT-the-inverse(%s)' % s[:40]
         # edge(complex, S, T)
         w = v
         while w[0] in ('ref', 'deref'):
@@ -534,6 +541,20 @@ def elim_shape(t, is_src, is_tgt):
                 return 'b'
         return '?'
     return (kind, role(x), role(y), role(z))
+
+
+def pure_inverse(v):
+    """v is inv(x) seen only through refs / unwrap / Some-payload / clone (no negation, no other arithmetic)"""
+    while True:
+        if v[0] in ('ref', 'deref'):
+            v = v[1]
+        elif v[0] == 'field' and v[2].endswith('Some.0'):
+            v = v[1]
+        elif v[0] == 'call' and v[1].split('::')[-1] in ('unwrap', 'clone', 'expect', 'unwrap_unchecked') and v[2]:
+            v = v[2][0]
+        else:
+            break
+    return v[0] == 'call' and v[1].split('::')[-1] == 'inv' and len(v[2]) == 1
 
 
 def _subcalls(t):
